@@ -163,6 +163,25 @@ def wireJudge (f : List String) (out : String) : String :=
     | _, _ => "bad:unparsable:" ++ out
   | _, _ => "bad:unparsable:" ++ out
 
+/-- c17.target: like c17.wire, but the third field is the request target as written on the wire;
+`unreached TAB status` = net/http refused the request before any handler. -/
+def targetModel (f : List String) : String :=
+  match wireCase f with
+  | none => "bad-case"
+  | some (cs, raw, tg, d, buf) =>
+    match serveTarget cs (buildTable raw) tg (wireBody d) (List.replicate (d.length + 8) buf) with
+    | none => "unreached\t400"
+    | some t => Driver.hex (delivered t) ++ "\t" ++ showErr (firstErr t)
+
+def targetJudge (f : List String) (out : String) : String :=
+  match wireCase f, out.splitOn "\t" with
+  | some (cs, raw, tg, d, _), [h, e] =>
+    if h = "unreached" then targetVerdict cs raw tg d .eof none
+    else match Driver.unhex h, (if e = "-" then some none else (parseErr e).map some) with
+    | some got, some err => targetVerdict cs raw tg d .eof (some [(got, err)])
+    | _, _ => "bad:unparsable:" ++ out
+  | _, _ => "bad:unparsable:" ++ out
+
 /-- c17.e2e: the merged values on a real listener; `bighdr` / `stall` model what net/http documents
 (MaxHeaderBytes + 4096 bytes of slack; ReadHeaderTimeout, falling back to ReadTimeout): trusted. -/
 def e2eModel : List String → String
@@ -220,6 +239,7 @@ def e2eJudge (f : List String) (out : String) : String :=
 def streams : List Driver.Stream := [
   { name := "c17.e2e", model := e2eModel, judge := e2eJudge },
   { name := "c17.wire", model := wireModel, judge := wireJudge },
+  { name := "c17.target", model := targetModel, judge := targetJudge },
   { name := "c17.reader", model := readerModel, judge := readerJudge },
   { name := "c17.scope", model := readerModel, judge := readerJudge },
   { name := "c17.match", model := matchModel, judge := fun _ _ => "ok" },
